@@ -551,6 +551,22 @@ def run_cases(cases, res):
             res.case(json.dumps([cls, "un", c["v"], c["prefix"]]), nontrivial=len(c["v"]) > 0)
             ma = answers[sl2]
             obs = list(im)
+            # the statement on an arbitrary buffer: its first `size` bytes ARE the packed form of exactly one representable
+            # integer / address (little endian, two's complement; the byte tuple), so unpacking must return that value
+            # and account for exactly `size` bytes -- whatever follows
+            buf = bytes.fromhex(c["v"])
+            if cls in INTS and len(buf) >= INTS[cls][1]:
+                want = [int.from_bytes(buf[:INTS[cls][1]], "little", signed=INTS[cls][2]), INTS[cls][1]]
+                if obs != want:
+                    res.fail("spec", c, dict(value=want[0], size=want[1]), obs,
+                             "unpacking the packed form of a representable value (followed by arbitrary bytes) returns another value / size")
+                elif ma != "err" and [int(ma.rsplit(" ", 1)[0]), int(ma.rsplit(" ", 1)[1])] != want:
+                    res.fail("corr", c, dict(model_unpack=ma), want, "model value of a packed integer differs from the wire layout")
+            elif cls in ADDRS and len(buf) >= ADDRS[cls]:
+                want = [ctor_value(cls, buf[:ADDRS[cls]].hex()), ADDRS[cls]]
+                if obs != want:
+                    res.fail("spec", c, dict(value=want[0], size=want[1]), obs,
+                             "unpacking the packed form of an address (followed by arbitrary bytes) returns another value / size")
             if ma == "err":
                 res.count("unpack:error")
                 if im[0] is not None:
@@ -633,10 +649,13 @@ def run(ctx):
     cases.extend(gen_cases(rng, ctx["tier"]))
     if ctx.get("max_cases"):
         cases = cases[: ctx["max_cases"]]
-    run_cases(cases, res)
     import reuse
-    reuse.datatype_reuse(res, random.Random(ctx["seed"] * 31 + 1919), 1500 if ctx["tier"] == "quick" else 60000)
-    reuse.datatype_sequences(res, random.Random(ctx["seed"] * 37 + 1920), 1500 if ctx["tier"] == "quick" else 40000)
+    from common import Parts
+    parts = Parts(res)
+    parts.run("wire types: pack / unpack / size / field sequences", run_cases, cases, res)
+    parts.run("instance re-use", reuse.datatype_reuse, res, random.Random(ctx["seed"] * 31 + 1919), 1500 if ctx["tier"] == "quick" else 60000)
+    parts.run("operation sequences", reuse.datatype_sequences, res, random.Random(ctx["seed"] * 37 + 1920), 1500 if ctx["tier"] == "quick" else 40000)
+    parts.finish()
     res.notes.append("object re-use: to_bytes / unpack / to_bytes sequences on one instance compared with a fresh instance, "
                      "and operation sequences (construct / pack / unpack / size / value / next) compared with the Lean instance model after every step")
     res.extra["bit_fields_enumerated_completely"] = True
